@@ -18,6 +18,8 @@ type Yielder interface {
 	Y(point string)
 	Logf(format string, a ...interface{})
 	Seq() uint64
+	TaskName() string
+	CountOf(name string) int
 }
 
 // ReloadPlan says what the next DBI.Reload call does.
@@ -37,6 +39,8 @@ type Monitor struct {
 	Backends   []*Backend
 	Violations []string
 	plans      []ReloadPlan
+	planFor    map[string]ReloadPlan // keyed by the name of the db.Reload worker task
+	ctxFor     map[string]string
 	// counters
 	Opens, Closes, Uses, Reloads, UseAfterClose, DoubleClose, ClosedWhilePinned int
 	LateBackends                                                                  int // backends that came back after their reload had timed out (set by harness)
@@ -56,6 +60,21 @@ type CatchUp struct {
 
 // New creates a monitor.
 func New(y Yielder) *Monitor { return &Monitor{y: y} }
+
+// PlanNext binds a plan and a context label to the next db.Reload worker that will be started
+// (the caller is about to start a reload and nobody else starts one concurrently). A worker that
+// runs late still finds its own plan.
+func (m *Monitor) PlanNext(p ReloadPlan, ctx string) {
+	name := fmt.Sprintf("dbreload.worker#%d", m.y.CountOf("dbreload.worker"))
+	m.mu.Lock()
+	if m.planFor == nil {
+		m.planFor = map[string]ReloadPlan{}
+		m.ctxFor = map[string]string{}
+	}
+	m.planFor[name] = p
+	m.ctxFor[name] = ctx
+	m.mu.Unlock()
+}
 
 // PushPlan queues the plan for the next Reload call (FIFO).
 func (m *Monitor) PushPlan(p ReloadPlan) {
@@ -256,11 +275,23 @@ func (b *Backend) Close() error {
 
 // Reload implements db.DBI with the fault plan. It runs in the goroutine db.Reload starts.
 func (b *Backend) Reload(path string) (db.DBI, error) {
-	p := b.m.popPlan()
+	var p ReloadPlan
 	b.m.mu.Lock()
 	b.m.Reloads++
 	ctx := b.m.Context
+	byName := b.m.planFor != nil
 	b.m.mu.Unlock()
+	if byName {
+		name := b.m.y.TaskName()
+		b.m.mu.Lock()
+		p = b.m.planFor[name]
+		if c, ok := b.m.ctxFor[name]; ok {
+			ctx = c
+		}
+		b.m.mu.Unlock()
+	} else {
+		p = b.m.popPlan()
+	}
 	if p.DelayBefore > 0 {
 		time.Sleep(p.DelayBefore)
 		b.m.y.Y("mon.reload.before")
